@@ -183,7 +183,7 @@ def _run_one(i):
         if to:
             signal.alarm(0)
     out.seconds = time.time() - t0
-    return i, out.as_dict()
+    return i, jsonable_deep(out.as_dict())
 
 
 def run_obligations(obligs, jobs=None):
@@ -215,6 +215,23 @@ def load_known_findings():
 
 def safe_name(s):
     return re.sub(r"[^A-Za-z0-9_.#-]+", "_", s)[:150]
+
+
+def jsonable_deep(x):
+    """plain-data copy (results cross a process boundary and end up in JSON files)"""
+    if isinstance(x, (str, int, float, bool)) or x is None:
+        return x
+    if isinstance(x, dict):
+        return {str(k): jsonable_deep(v) for k, v in x.items()}
+    if isinstance(x, (list, tuple, set, frozenset)):
+        return [jsonable_deep(v) for v in x]
+    try:
+        import numpy as _np
+        if isinstance(x, _np.generic):
+            return x.item()
+    except Exception:  # pylint: disable=broad-except
+        pass
+    return repr(x)
 
 
 def jsonable(x):
